@@ -388,6 +388,8 @@ where
     }
 
     fn step(&self, solver: &Solver<U, Self>, lazy: Lazy<U, Self>) -> Stream<U, Self> {
+        #[cfg(terohuttunen_proto_vulcan_verif)]
+        crate::verif::tick();
         match lazy {
             Lazy::MPlus(s1, s2) => {
                 let stream = self.step(solver, *s1.0);
